@@ -547,6 +547,15 @@ pub fn alt_world() -> Option<World> {
     Some(World { conv, units, tag: "a" })
 }
 
+/// the bundled units with corpus/C12/frac_layer.toml (fraction settings only) stacked on top, built by the real `ConverterBuilder`
+pub fn layered_world() -> Option<World> {
+    let text = std::fs::read_to_string("corpus/C12/frac_layer.toml").ok()?;
+    let file: cooklang::convert::UnitsFile = toml::from_str(&text).ok()?;
+    let conv = Converter::builder().with_bundled_units().ok()?.with_units_file(file).ok()?.finish().ok()?;
+    let units: Vec<Arc<Unit>> = conv.all_units().map(|u| conv.find_unit(u.symbol()).expect("unit by symbol")).collect();
+    Some(World { conv, units, tag: "l" })
+}
+
 fn run_world(ctx: &mut Ctx, w: &World, seed_tag: u64) {
     let mut rng = Rng::new(ctx.seed ^ 0xC09 ^ seed_tag);
     table_checks(ctx, w);
